@@ -8,7 +8,7 @@ git diff -- bluetoe | diff -q - patch.diff >/dev/null && echo "patch.diff matche
 cmake --build _build -j${J:-8} -- -k 0 2>&1 | tail -1
 ctest --test-dir _build -j4 --timeout 900 2>&1 | grep -E "tests passed|Failed|Timeout" | head -5
 ( cd demo && bash build.sh >/dev/null 2>&1; timeout 300 ./demo >/dev/null 2>&1; echo "demo WITH mutation: exit $?" )
-git stash -q -- bluetoe
+git apply -R patch.diff
 ( cd demo && bash build.sh >/dev/null 2>&1; timeout 300 ./demo >/dev/null 2>&1; echo "demo WITHOUT mutation: exit $?" )
-git stash pop -q
+git apply patch.diff
 git diff -- bluetoe | diff -q - patch.diff >/dev/null && echo "restored" || echo "RESTORE MISMATCH"
